@@ -11,8 +11,9 @@ C08 — conversions among graph, stabilizer and density-matrix forms preserve th
     C08.state_to_graph_sound then makes exactness of every returned result a theorem about the modelled code.
 Completeness: `state_to_graph` must return on EVERY stabilizer state (theorem C08.state_to_graph_complete for the model); an exception of
 the implementation on a valid state is a violation.  Regression inputs of the repaired D40 (`_position_finder` assumed a pivot at
-(0,0)): |0>, |0>|+>, |0> x Bell.  A raise that disappears when det/inv are computed exactly is keyed as the float artefact D49
-(`np.linalg.det(..).astype(int)` truncating 2.9999999999999996 -> 2; repaired, kept as a classification).
+(0,0)): |0>, |0>|+>, |0> x Bell; of the repaired D49 (float determinant truncated) and D51 (float det*inv loses the integers from ~42
+qubits on; /repo 70adac4 replaced it by the exact Gauss-Jordan `_gf2_inverse`, which the model's `gf2Inv` mirrors literally): they must
+convert and agree exactly with the model like every other input.
 """
 import itertools
 
@@ -26,7 +27,9 @@ LEVEL = "proof"
 TRUSTED_BASE = [
     "Lean 4.33 kernel; theorems of Properties/C08 (graph->generators for every n; CZ-on-|+..+> builds the graph generators; soundness of the conversion validator; "
     "soundness of the modelled state_to_graph / stabilizer_to_graph for every input and every candidate GF(2) inverse; completeness (the modelled state_to_graph "
-    "returns on every stabilizer state, n >= 1, with exact GF(2) inverses: state_to_graph_complete / state_to_graph_correct); round trip on graph states)",
+    "returns exactly on the stabilizer states, n >= 1: state_to_graph_complete / _correct / _returns_iff_state; the GF(2) inverse of the model, Gauss-Jordan "
+    "`gf2Inv`, is since /repo 70adac4 literally the code's `_gf2_inverse` — no float step is left in state_to_graph); stabilizer_to_graph on every generating "
+    "set of |G>; gauge independence; single-qubit gates; state round trip; Hilbert-space form U rho U^dagger = |G><G|)",
     "correspondence of Model/StateToGraph.lean with state_rep_conversion.py: exact comparison (graph, gate list, error class) on every generated input — testing, not proof",
     "density -> graph: proved at the level of stabilizer groups (the pair group of |G> at (i, j) is the two-vertex graph state with an edge iff A[i,j]: "
     "density_to_graph_pair_state_partial) and on exact 4x4 rational matrices (negativity 0 resp. 1/2: density_to_graph_pair_negativity); cited, not proved: "
@@ -36,84 +39,16 @@ TRUSTED_BASE = [
 ]
 ASSUMPTIONS = [
     "density-matrix inputs are pure graph states; mixed-state lists are outside the quantifier",
-    "float GF(2) inverses: `np.linalg.det(x).astype(int) % 2` and `(det * inv % 2).astype(int)` are modelled by exact GF(2) elimination; they agree with the model "
-    "whenever the float determinant/adjugate entries are within truncation of the exact integers from above (|error| small AND not below the integer); where they "
-    "are not, the implementation raises (finding D49) — the soundness theorem holds for every candidate inverse, because the code re-checks x_inv @ x.T == I",
+    "the GF(2) inverses of `_graph_finder` / `_phase_correction` are the exact Gauss-Jordan `_gf2_inverse` (/repo 70adac4, repair of D51; before: float det*inv, "
+    "D49/D51) and are modelled literally (same pivot rule: first row at or below the diagonal with a 1, swap, clear every other row); the soundness theorem does not "
+    "depend on it (it holds for every candidate inverse, because the code re-checks x_inv @ x.T == I)",
     "n >= 1 (row_reduction does not terminate on a 0 x 0 matrix)",
 ]
 
 KEY_RAISES = "state_to_graph:valid-state:raises:assertion"
-KEY_D49 = "state_to_graph:float-determinant-truncated:raises"
-# float precision limit of `np.round(np.linalg.det(x) * np.linalg.inv(x)) % 2` (found while proving completeness, handoff/deep-c08.md):
-# for a 0/1 matrix whose integer determinant is ~1e13 or more the float product is not within 1/2 of the adjugate (beyond 2^53 not even the
-# parity of the determinant survives), so state_to_graph raises on valid states from ~42 qubits on (|0..0> in a dense generating set:
-# 19 % at n = 42, 85 % at n = 44, 100 % from n = 52).  Never a wrong result (closing assertions).  Reported as a violation only once the key
-# is listed in known_findings.txt (shared file, coordinator's decision); until then the reproduction is recorded in the evidence notes.
-KEY_FLOAT53 = "state_to_graph:float-determinant-precision:raises"
-# Z part (42 x 42, row-major bits as hex) of a generating set of |0..0> on 42 qubits on which /repo raises 'Unexpected X matrix.' (det = 86641533866367)
+# Z part (42 x 42, row-major bits as hex) of a generating set of |0..0> on 42 qubits on which /repo before 70adac4 (D51) raised
+# 'Unexpected X matrix.': the float det*inv of the X part after the Hadamards (det = 86641533866367) was not within 1/2 of the adjugate
 FLOAT_LIMIT_Z42 = "15c245dd0e26245e41cb4fbe50f78eb36385a958618f1fbd96f3c99bf7307a54d9731cc6af23df33c3d12d6894b1cc92b2ad5ed12032a0f4e9c9e13920b82fa69812afb10b28541951bb137a62d330509a6f2a200f34c80bd15ba275042a57a50d904cc693b56d7d236c9771f7e6c68065372f0ff0d04181de9851ce9266cbb690d3c9b0d80aa9ab9aa0c9b83efa26861407fdde3849c546b90defcbb05ad2d0bb5c158961c157f5093944d42224a3331ea33b8a645e392daeba97297b40926ecbb43b0de9e7e903114d7440892b5a96986533233cbb10744dcdc9d10"
-
-
-def _finding_listed(key):
-    from harness import common
-
-    try:
-        return key in [k for k, _ in common.load_known_findings("C08")]
-    except Exception:  # noqa: BLE001
-        return False
-
-
-class ExactLinalg:
-    """context manager: np.linalg.det / np.linalg.inv computed exactly (rationals) for integer matrices — used only to classify an
-    implementation/model disagreement as the float artefact D49"""
-
-    def __enter__(self):
-        from fractions import Fraction
-
-        self.det, self.inv = np.linalg.det, np.linalg.inv
-
-        def elim(a):
-            a = np.asarray(a)
-            n = a.shape[0]
-            m = [[Fraction(int(a[i, j])) for j in range(n)] + [Fraction(int(i == j)) for j in range(n)] for i in range(n)]
-            det = Fraction(1)
-            for c in range(n):
-                p = next((i for i in range(c, n) if m[i][c] != 0), None)
-                if p is None:
-                    return Fraction(0), None
-                if p != c:
-                    m[c], m[p] = m[p], m[c]
-                    det = -det
-                det *= m[c][c]
-                pv = m[c][c]
-                m[c] = [v / pv for v in m[c]]
-                for i in range(n):
-                    if i != c and m[i][c] != 0:
-                        f = m[i][c]
-                        m[i] = [u - f * v for u, v in zip(m[i], m[c])]
-            return det, [[m[i][n + j] for j in range(n)] for i in range(n)]
-
-        big = 1 << 50  # beyond this a float64 no longer holds the integers exactly: report determinant and adjugate reduced mod 2 (odd
-        # determinant -> 1.0, and `inv` := adjugate mod 2, so that round(det * inv) % 2 is the exact adjugate mod 2, all the code uses)
-
-        def det(a):
-            d = int(elim(a)[0])
-            return np.float64(d if abs(d) < big else d % 2)
-
-        def inv(a):
-            d, iv = elim(a)
-            if iv is None:
-                raise np.linalg.LinAlgError("Singular matrix")
-            adj = [[int(d * v) for v in r] for r in iv]
-            if abs(int(d)) < big and all(abs(v) < big for r in adj for v in r):
-                return np.array(adj, dtype=float) / float(int(d))
-            return np.array([[v % 2 for v in r] for r in adj], dtype=float)
-
-        np.linalg.det, np.linalg.inv = det, inv
-        return self
-
-    def __exit__(self, *a):
-        np.linalg.det, np.linalg.inv = self.det, self.inv
 
 
 def impl_state_to_graph(tab):
@@ -263,8 +198,6 @@ def check_state_to_graph(ctx, res, drv, tab, pending, tag):
     inp = {"stab": su.stab_args(st), "case": tag, "input_type": type(tab).__name__}
     res.evaluations += 1
     n = st.n_qubits
-    if tag == "corpus:float-limit":
-        inp["n"] = n
     res.count("sizes", f"n={n}" if n <= 6 else "n>6")
     out = impl_state_to_graph(tab)
     # exact comparison with the model of state_to_graph (classification of raises happens in flush, where the model's answer is known)
@@ -276,34 +209,15 @@ def check_state_to_graph(ctx, res, drv, tab, pending, tag):
 
 
 def classify_raise(res, inp, impl, rep):
-    """the implementation raised on a valid stabilizer state (the property's completeness half fails): which known finding is it?"""
-    tab = inp.pop("_tab")
+    """the implementation raised on a valid stabilizer state: the property's completeness half fails (theorem C08.state_to_graph_complete says
+    the modelled code returns on every stabilizer state) — a violation whatever the model answers"""
+    inp.pop("_tab", None)
     model_ok = rep["_status"] == "ok"
     if impl[1] != "assertion":
         res.violation(f"state_to_graph:raises:{impl[1]}", f"state_to_graph raised {impl[1]}: {impl[2]}", input=inp)
         return model_ok is False and rep["_raw"].split()[1] == impl[1]
-    # the exact model returns: is floating point the only difference?
-    with ExactLinalg():
-        again = impl_state_to_graph(tab)
-    if again[0] == "ok" and (again[1], again[2]) == (rep.get("a"), rep.get("gates")) and inp.get("case") == "corpus:float-limit":
-        desc = (f"state_to_graph raises AssertionError('{impl[2]}') on a valid {inp.get('n')}-qubit stabilizer state although exact arithmetic converts it "
-                "(and to the model's answer): the float det*inv of a 0/1 matrix with a determinant of ~1e13 or more is not within 1/2 of the adjugate")
-        res.count("errors", "float-precision-limit")
-        short = dict(case=inp["case"], n=inp.get("n"), error=impl[2], stab=inp["stab"][:80] + "...")
-        if _finding_listed(KEY_FLOAT53):
-            res.violation(KEY_FLOAT53, desc, input=dict(inp, exact_result=again))
-        else:
-            res.notes.append("float precision limit reproduced (not a listed finding yet, see handoff/deep-c08.md): " + desc)
-            res.extra.setdefault("float_precision_limit_reproduced", []).append(short)
-        return True
-    if again[0] == "ok" and (again[1], again[2]) == (rep.get("a"), rep.get("gates")):
-        res.count("errors", "D49:float-determinant")
-        res.violation(KEY_D49, f"state_to_graph raises AssertionError('{impl[2]}') on a valid stabilizer state although exact arithmetic converts it: "
-                      "np.linalg.det(x).astype(int) truncates the float determinant", input=dict(inp, exact_result=again))
-        return True
     res.count("errors", "raises:assertion")
-    res.violation(KEY_RAISES, f"state_to_graph raises AssertionError('{impl[2]}') on a valid stabilizer state (exact arithmetic does not help)",
-                  input=dict(inp, model=rep["_raw"][:200]))
+    res.violation(KEY_RAISES, f"state_to_graph raises AssertionError('{impl[2]}') on a valid stabilizer state", input=dict(inp, model=rep["_raw"][:200]))
     return model_ok is False and rep["_raw"].split()[1] == "assertion"
 
 
@@ -455,7 +369,7 @@ def check_node_order(ctx, res, adj):
 # states whose qubit 0 has no X component after row reduction (|0>, |0>|+> = <ZX, ZI>, |0> x Bell = <IXX, ZII, IZZ>): state_to_graph raised
 # on them before the repair of D40 (/repo 86ab4f1); they must convert
 FORMER_D40 = ["n=1 x=0 z=1 r=0", "n=2 x=0100 z=1010 r=00", "n=3 x=011000000 z=000100011 r=000"]
-# smallest witness found for D49 (5 qubits): float det*inv of the X part after the Hadamards is not integral enough for astype(int)
+# smallest witness found for the repaired D49 (5 qubits): float det*inv of the X part after the Hadamards was not integral enough for astype(int)
 D49_WITNESS = "n=5 x=0000000000000001100000000 z=1111000011001010101011001 r=00110"
 
 
@@ -494,11 +408,11 @@ def run(ctx, budget=1.0):
     for w in FORMER_D40:
         check_state_to_graph(ctx, res, drv, stab_of_args(w), pending, "corpus:former-D40")
     check_state_to_graph(ctx, res, drv, stab_of_args(D49_WITNESS), pending, "corpus:D49")
-    # the float precision limit: |0..0> on 42 qubits in a dense generating set (fixed witness) and random ones on 48 qubits
+    # regression corpus of the repaired D51 (float det*inv): |0..0> on 42 qubits in a dense generating set (fixed witness) and random ones on 48
     z42 = bin(int(FLOAT_LIMIT_Z42, 16))[2:].zfill(42 * 42)
-    check_state_to_graph(ctx, res, drv, stab_of_args(f"n=42 x={'0' * 1764} z={z42} r={'0' * 42}"), pending, "corpus:float-limit")
+    check_state_to_graph(ctx, res, drv, stab_of_args(f"n=42 x={'0' * 1764} z={z42} r={'0' * 42}"), pending, "corpus:former-D51")
     for _ in range(1 if ctx.quick else 5):
-        check_state_to_graph(ctx, res, drv, dense_zero_state(rng, 48), pending, "corpus:float-limit")
+        check_state_to_graph(ctx, res, drv, dense_zero_state(rng, 48), pending, "corpus:former-D51")
     flush(res, drv, pending)
     nmax = 4 if ctx.quick else 5
     for n in range(1, nmax + 1):
